@@ -991,6 +991,19 @@ fn dump<'tcx>(tcx: TyCtxt<'tcx>, dir: &str) {
                     .map(|it| J::s(it.name().to_string()))
                     .collect();
                 o.push(("items", J::Arr(items)));
+                // associated types the impl defines: `<X as Trait>::Name` is this type for Self = X
+                let tenv_i = TypingEnv::post_analysis(tcx, did);
+                let atys: Vec<J> = tcx
+                    .associated_items(did)
+                    .in_definition_order()
+                    .filter(|it| it.is_type())
+                    .map(|it| {
+                        let t = tcx.type_of(it.def_id).instantiate_identity().skip_norm_wip();
+                        let t = tcx.try_normalize_erasing_regions(tenv_i, rustc_middle::ty::Unnormalized::new_wip(t)).unwrap_or(t);
+                        J::obj(vec![("name", J::s(it.name().to_string())), ("ty", J::s(ty_s(t)))])
+                    })
+                    .collect();
+                o.push(("assoc_tys", J::Arr(atys)));
                 let preds = tcx.predicates_of(did);
                 o.push((
                     "preds",
